@@ -193,14 +193,18 @@ def opWrite (P : SProto Q) (s : Sys Q) (es : List SEv) (req : Bytes) (tmo : Opti
 def opRead (P : SProto Q) (s : Sys Q) (es : List SEv) (tmo : Option Nat) : PRes × Sys Q × List SEv :=
   match tryRead P s.conn with
   | .done r c => (r, { s with conn := c }, es)
-  | .wait c =>
-    let s := { s with conn := c }
+  | .wait _ =>
+    -- the items the waiting read has skipped come back when it finds its message; they are gone when it is cancelled
     match await P (readReady P) (tmo.map (s.now + ·)) s es with
     | (.ready, s1, es1) =>
       (match tryRead P s1.conn with
         | .done r c => (r, { s1 with conn := c }, es1)
         | .wait c => (.connErr, { s1 with conn := c }, es1))
-    | (.timeout, s1, es1) => (.timeout, s1, es1)
+    | (.timeout, s1, es1) =>
+      -- what arrived during the wait and did not match was looked at (HSFZ: and dropped) by the waiting read
+      (match tryRead P s1.conn with
+        | .wait c => (.timeout, { s1 with conn := c }, es1)
+        | .done .. => (.timeout, s1, es1))
     | (.never, s1, es1) => (.blocked, s1, es1)
 
 /-- `transport.request_unsafe` -/
@@ -232,7 +236,7 @@ def doipPoll (P : SProto Q) (wend : Nat) : Nat → Sys Q → List SEv → RcRes 
       if s.raOn then (.ok, s, es)
       else
         -- the routing activation request is not answered: the new connection is given up, the transport keeps the old one
-        let r := await P (fun x => !x.conn.live) (some (min (s.now + Doip.raTimeoutMs) wend)) s es
+        let r := await P (fun x => x.conn.closed || x.conn.streamEnded) (some (min (s.now + Doip.raTimeoutMs) wend)) s es
         let s1 := { r.2.1 with conn := old }
         if wend ≤ s1.now then (.timedOut, s1, r.2.2)
         else
@@ -270,6 +274,7 @@ def pendLoop (P : SProto Q) (cls : Bytes → Ev) (lim : Limits) (mnt : Nat) (s :
   | (.timeout, s1, es1) =>
     if h : mnt ≤ nt + 1 then .silence s1 es1 else pendLoop P cls lim mnt s1 es1 np (nt + 1)
   | (.connErr, s1, es1) | (.eos, s1, es1) => .lost s1 es1
+  | (.data [], s1, es1) => .lost s1 es1        -- `if raw_resp == b"": raise BrokenPipeError`
   | (.data d, s1, es1) =>
     match cls d with
     | .pending => if h : lim.maxPending ≤ np + 1 then .done .stuck s1 es1 else pendLoop P cls lim mnt s1 es1 (np + 1) 0
@@ -305,6 +310,7 @@ def attemptStep (P : SProto Q) (cls : Bytes → Ev) (lim : Limits) (req : Bytes)
   match opRequest P s es req tmo with
   | (.timeout, s1, es1) => let r := backoff P lim retry i s1 es1; .next r.1 r.2 (.missing false)
   | (.connErr, s1, es1) | (.eos, s1, es1) => afterLoss P lim retry i s1 es1
+  | (.data [], s1, es1) => afterLoss P lim retry i s1 es1      -- `if raw_resp == b"": raise BrokenPipeError`
   | (.data d, s1, es1) =>
     (match cls d with
     | .busy => if retry then (let r := backoff P lim retry i s1 es1; .next r.1 r.2 last) else .fin (.reply d) s1 es1
